@@ -74,5 +74,9 @@ def run(ctx):
 
     F.check_sum_once_of(ctx, "E4.sum-once", P, "<AggregateSignature<C> as TryFrom<&[Signature<C>]>>::try_from", "sigs", "AggregateSignature", 3)
     F.check_sum_once_of(ctx, "E4.sum-once", P, "<MultiSignature<C> as TryFrom<&[Signature<C>]>>::try_from", "sigs", "MultiSignature", 2)
+    # the trait-level Aggregate / key aggregation of the draft
+    from .c07 import check_accumulators
+
+    check_accumulators(ctx, P, ("BlsSignatureCore::aggregate_signatures", "BlsSignatureCore::aggregate_public_keys"))
     ctx.assume("GroupEncoding::to_bytes of both backends is the ZCash/IETF compressed serialization (dependency contract)")
     ctx.assume("the backend's hash::<ExpandMsgXmd<Sha256>> implements hash_to_curve SSWU_RO of RFC 9380 (dependency contract)")
